@@ -527,13 +527,11 @@ Fixpoint pow2_ge (fuel : nat) (p cap : N) : N :=
 Definition phys_of (cap : N) : N := pow2_ge (N.to_nat cap) 2 cap.
 
 (* a slot access (payload cell step) happened whose index store is still outstanding *)
-Definition wrote (s : st) : bool :=
-  match ppc s with PPush _ StIdx => true | _ => false end.
-Definition took (s : st) : bool :=
-  match cpc s with
-  | CPop _ StIdx | CDrain StIdx => true
-  | _ => match ppc s with PDrain StIdx => true | _ => false end
-  end.
+Definition p_wrote (pc : ppc_t) : bool := match pc with PPush _ StIdx => true | _ => false end.
+Definition c_took (pc : cpc_t) : bool := match pc with CPop _ StIdx | CDrain StIdx => true | _ => false end.
+Definition p_took (pc : ppc_t) : bool := match pc with PDrain StIdx => true | _ => false end.
+Definition wrote (s : st) : bool := p_wrote (ppc s).
+Definition took (s : st) : bool := c_took (cpc s) || p_took (ppc s).
 Definition hi (s : st) : N := tail s + b2n (wrote s).
 Definition lo (s : st) : N := head s + b2n (took s).
 (* values whose payload cell has been written, in order *)
